@@ -2027,4 +2027,15 @@ theorem hasTyVariant_lt : ∀ (vars : List (List Ty)) (k : Nat) (vs : List Val),
 end
 
 
+/-! ### enum layout -/
+theorem encodeVariant_eq (vars : List (List Ty)) (k : Nat) (fs : List Ty) (vs : List Val) (h : vars[k]? = some fs) :
+    encodeVariant vars k vs = encodeFields fs vs := by
+  induction vars generalizing k with
+  | nil => simp at h
+  | cons f rest ih =>
+    cases k with
+    | zero => simp at h; subst h; simp [encodeVariant]
+    | succ k => simp at h; simp [encodeVariant, ih k h]
+
+
 end TF.Codec
